@@ -36,6 +36,14 @@ func TestReplay(t *testing.T) {
 		checkAgent(t, ac)
 		return
 	}
+	if cf.Sub == "dense" {
+		var dc DenseCase
+		if err := json.Unmarshal(cf.Case, &dc); err != nil {
+			t.Fatal(err)
+		}
+		checkDense(t, dc)
+		return
+	}
 	if cf.Sub == "cli" {
 		var ac AgentCase
 		if err := json.Unmarshal(cf.Case, &ac); err != nil {
